@@ -42,11 +42,11 @@
        field's marker count needs a space-free path).
 
    NOT proved for the full domain sshd can print: the accepted public key / certificate messages
-   (see the _partial theorems and their comment). *)
+   (see the _partial theorems and their comment at the end of this file). *)
 From Coq Require Import Ascii String List Bool Arith ZArith NArith.
 Import ListNotations.
 From AM Require Import Lib.Bytes Lib.Regex Proofs.RegexLemmas Model.SshdProc Proofs.SshdFields Proofs.SshdForms
-  Proofs.SshdFields2 Proofs.SshdForms2.
+  Proofs.SshdFields2 Proofs.SshdForms2 Proofs.SshdLogin.
 Open Scope string_scope.
 Open Scope list_scope.
 
@@ -210,4 +210,68 @@ Proof. vm_compute. repeat split. Qed.
 Example C06_example_revoked :
   let r := process cfg0 (s2l "9") (fmt_revoked_key (s2l "ED25519") (s2l "SHA256:YI+caZKJCNaXgsD0NvRZ2fLaEeF46cEVyadru/SL76o") (s2l "/etc/ssh/revoked_keys")) true false in
   r = failure_result true (ev_revoked_key cfg0 (s2l "9") (s2l "ED25519") (s2l "SHA256:YI+caZKJCNaXgsD0NvRZ2fLaEeF46cEVyadru/SL76o") (s2l "/etc/ssh/revoked_keys")).
+Proof. vm_compute. reflexivity. Qed.
+
+(* ---------- Accepted publickey: PARTIAL (restricted domain) ----------
+
+   Line:  Accepted publickey for U from S port P ssh2: KT HASH:KS
+          optionally followed by   ID KID (serial N) CA KT2 HASH2:KS2      (certificate)
+
+   Proved domain:  u no_nl;  s no_space and not the word from;  p digits;
+     kt, h, kt2, h2 upper_word = non-empty [A-Z0-9-] (what sshkey_type and ssh_digest_alg_name print);
+     ks non-empty no_space;  ks2 no_space;  n digits;
+     kid plain_keyid = no white space, not the word from or port, not starting with ssh.
+   MISSING from the full domain (correspondence check only):
+     - key type / hash names with lower-case letters or underscore (the regex class is [A-Za-z0-9_ -]);
+     - a source that is exactly the word from (proof artefact: the line is still parsed correctly);
+     - key ids containing white space.  This is NOT a proof artefact: the three greedy fields of
+       loginRE are unanchored, so a key id such as  x from 6.6.6.6 port 1 ssh2: RSA SHA256:zzz
+       moves user, source and port into the key id (see C06_example_keyid_hijack below);
+     - the optional  ", <method info>"  suffix sshd can append after the CA fingerprint.
+   What the regexes record (both stated in the theorems, both differ from the property text read
+   literally): the key algorithm is  "KT HASH"  and the fingerprint is the bare digest KS (the
+   fingerprint sshd prints is HASH:KS);  the CA datum is  "CA KT2 HASH2:KS2"  INCLUDING the
+   literal word CA, because certIDRE has no literal CA before its last group. *)
+
+Theorem C06_accepted_key_partial : forall c tok pid u s p kt h ks wok ready,
+  atoi tok = Some pid ->
+  no_nl u -> no_space s -> s <> s2l "from" -> digits p ->
+  upper_word kt -> upper_word h -> ks <> [] -> no_space ks ->
+  process c tok (fmt_accepted_key u s p kt h ks) wok ready =
+  accepted_result wok ready "SSHKeyLogin" pid (s2l "unknown")
+    (ev_accepted_key c tok u s p (kt ++ s2l " " ++ h) ks).
+Proof. exact process_accepted_key_partial. Qed.
+Print Assumptions C06_accepted_key_partial.
+
+Theorem C06_accepted_cert_partial : forall c tok pid u s p kt h ks kid n kt2 h2 ks2 wok ready,
+  atoi tok = Some pid ->
+  no_nl u -> no_space s -> s <> s2l "from" -> digits p ->
+  upper_word kt -> upper_word h -> ks <> [] -> no_space ks ->
+  plain_keyid kid -> digits n -> upper_word kt2 -> upper_word h2 -> no_space ks2 ->
+  process c tok (fmt_accepted_cert u s p kt h ks kid n kt2 h2 ks2) wok ready =
+  accepted_result wok ready "SSHCertLogin" pid kid
+    (ev_accepted_cert c tok u s p (kt ++ s2l " " ++ h) ks kid n (ca_text kt2 h2 ks2)).
+Proof. exact process_accepted_cert_partial. Qed.
+Print Assumptions C06_accepted_cert_partial.
+
+(* the example line of openssh_regex.go is an instance of the certificate format ... *)
+Example C06_example_cert_line :
+  fmt_accepted_cert (s2l "auditomalditotesting") (s2l "127.0.0.1") (s2l "50482") (s2l "ED25519-CERT") (s2l "SHA256")
+    (s2l "YI+caZKJCNaXgsD0NvRZ2fLaEeF46cEVyadru/SL76o") (s2l "foo@bar.com") (s2l "0") (s2l "ED25519") (s2l "SHA256")
+    (s2l "Pcs5TWfcOSKb7Rw/XyvHfUcaQzmw6HtLrjUoyXuzIj8")
+  = s2l "Accepted publickey for auditomalditotesting from 127.0.0.1 port 50482 ssh2: ED25519-CERT SHA256:YI+caZKJCNaXgsD0NvRZ2fLaEeF46cEVyadru/SL76o ID foo@bar.com (serial 0) CA ED25519 SHA256:Pcs5TWfcOSKb7Rw/XyvHfUcaQzmw6HtLrjUoyXuzIj8".
+Proof. vm_compute. reflexivity. Qed.
+
+(* ... and its fields are in the proved domain *)
+Example C06_example_cert_hyps :
+  plain_keyid (s2l "foo@bar.com") /\ upper_word (s2l "ED25519-CERT") /\ upper_word (s2l "SHA256") /\
+  no_space (s2l "YI+caZKJCNaXgsD0NvRZ2fLaEeF46cEVyadru/SL76o") /\ s2l "127.0.0.1" <> s2l "from".
+Proof. unfold plain_keyid, upper_word. repeat split; try reflexivity; discriminate. Qed.
+
+(* a key id with spaces takes over account, source and port, and the certificate identity is lost:
+   outside the proved domain, and outside what the regular expressions can get right *)
+Example C06_example_keyid_hijack :
+  let line := s2l "Accepted publickey for bob from 1.2.3.4 port 22 ssh2: RSA-CERT SHA256:abc ID x from 6.6.6.6 port 1 ssh2: RSA SHA256:zzz (serial 0) CA RSA SHA256:def" in
+  map (fun e => (ev_logged_as e, ev_src e, ev_port e, ev_user_id e)) (r_writes (process cfg0 (s2l "1") line true true))
+  = [(s2l "bob from 1.2.3.4 port 22 ssh2: RSA-CERT SHA256:abc ID x", s2l "6.6.6.6", Some (s2l "1"), s2l "unknown")].
 Proof. vm_compute. reflexivity. Qed.
